@@ -382,12 +382,18 @@ def install():
             return Timedelta(tot)
         raise Unsupported("pd.Timedelta with these arguments", node)
 
+    @libmodels.lib("pandas.TimedeltaIndex")
+    def _pd_timedeltaindex(interp, args, kwargs, node, frame):
+        from .values import SOpaque
+        return SOpaque("TimedeltaIndex")
+
     @libmodels.lib("pytz.UTC.localize")
     def _localize(interp, args, kwargs, node, frame):
         return args[0]
 
     if not hasattr(libmodels, "LIB_CONSTANTS"):
         libmodels.LIB_CONSTANTS = {}
+    libmodels.LIB_CONSTANTS["pandas.NaT"] = NAT
     libmodels.LIB_CONSTANTS["pandas.Timestamp.min"] = Timestamp(z3.IntVal(TS_MIN))
     libmodels.LIB_CONSTANTS["pandas.Timestamp.max"] = Timestamp(z3.IntVal(TS_MAX))
 
